@@ -216,6 +216,12 @@ def obligation_for(unit, g, d):
             src = (po['file'], po['line'])
     elif kind == 'requires':
         callee = None
+        if any(str(s.get('file_name', '')).endswith('std_specs/fmt.rs') for s in sec):
+            # the failed precondition is vstd's `fmt_req` of a format! / println! / eprintln! argument: that formatting a
+            # value has no precondition is an ASSUMPTION of this framework (axioms per type, instantiated by hand where
+            # Verus' triggers do not find them), never a clause of a property - a formatting macro that was added or
+            # moved leaves the obligation undecided, it is not a violation
+            return 'trouble', 'formatting-totality axiom not instantiated for a format!/print! argument (generated line %d): undecided' % prim[0]['line_start']
         for s in sec:
             so = org(s)
             if so.get('kind') == 'inject':
